@@ -68,7 +68,12 @@ class TdmsReader(object):
                 filepath = self._file_path + '_index'
                 if os.path.isfile(filepath):
                     self._index_file_path = filepath
-                    self._index_file = open(self._index_file_path, "rb")
+                    try:
+                        self._index_file = open(self._index_file_path, "rb")
+                    except Exception:
+                        # Don't leave the data file open if the index file can't be opened
+                        self._file.close()
+                        raise
 
         if self._file is not None:
             self._data_file_size = _get_file_size(self._file)
